@@ -331,7 +331,9 @@ def rule_r4(p, res):
     cp = p.own_method("LabelledPointUndirectedGraph", "copy")
     r.instance(cp)
     s = norm(cp.node)
-    r.check("Copyable.copy(self)" in s and "new._labels_to_masks[k] = v.copy()" in s, cp, cp.node, "copy() must duplicate every label mask (add/remove label work on the copy)")
+    from .c06 import _override_deepens
+    r.check("Copyable.copy(self)" in s and ("new._labels_to_masks[k] = v.copy()" in s or _override_deepens(cp, "_labels_to_masks") is True), cp, cp.node,
+            "copy() must duplicate every label mask (add/remove label work on the copy)")
 
 
 RULES = [rule_r1, rule_r2, rule_r3, rule_r4]
